@@ -55,6 +55,7 @@ type UpAction struct {
 	Reset       bool   // with CloseBefore/CloseAfter on plain TCP: close with SO_LINGER 0 (RST)
 	RawStream   []byte // stream transports: write these octets verbatim instead of a framed Reply
 	HTTPStatus  int    // DoH: status to send (0 = 200)
+	HTTPHeaders map[string]string // DoH: response header fields set (over the defaults) before the body is written - a Content-Length that lies, another Content-Type, ...
 	HTTPStall   bool   // DoH: send the headers (full Content-Length) and half of the body, then stall until the client gives up
 }
 
@@ -523,6 +524,9 @@ func (u *FakeUpstream) serveHTTP(w http.ResponseWriter, r *http.Request, transpo
 		return
 	}
 	w.Header().Set("Content-Type", "application/dns-message")
+	for k, v := range a.HTTPHeaders {
+		w.Header().Set(k, v)
+	}
 	if a.HTTPStall {
 		w.Header().Set("Content-Length", fmt.Sprint(len(a.Reply)))
 		w.WriteHeader(200)
